@@ -861,11 +861,17 @@ func (p *Printer) cmdSubst(cs *CmdSubst) {
 		p.wantSpace = spaceRequired
 		p.nestedStmts(cs.Stmts, cs.Last, cs.Right)
 		p.wantSpace = spaceNotRequired
+		if len(p.pendingHdocs) > 0 {
+			p.mustNewline = true
+		}
 		p.semiRsrv("}", cs.Right)
 	case cs.ReplyVar:
 		p.w.WriteString("${|")
 		p.nestedStmts(cs.Stmts, cs.Last, cs.Right)
 		p.wantSpace = spaceNotRequired
+		if len(p.pendingHdocs) > 0 {
+			p.mustNewline = true
+		}
 		p.semiRsrv("}", cs.Right)
 	// Special case: `# inline comment`
 	case cs.Backquotes && len(cs.Stmts) == 0 &&
@@ -1479,7 +1485,12 @@ func (p *Printer) ifClause(ic *IfClause, elif bool) {
 func (p *Printer) stmtList(stmts []*Stmt, last []Comment) {
 	sep := p.wantNewline || (len(stmts) > 0 && stmts[0].Pos().Line() > p.line)
 	for i, s := range stmts {
-		if i > 0 && p.singleLine && p.wantNewline && !p.wroteSemi {
+		if i > 0 && p.singleLine && p.wantNewline && len(p.pendingHdocs) > 0 {
+			// The here-document bodies must come before any newline
+			// that this statement may need to print.
+			p.newline(s.Pos())
+			p.indent()
+		} else if i > 0 && p.singleLine && p.wantNewline && !p.wroteSemi {
 			// In singleLine mode, ensure we use semicolons between
 			// statements.
 			p.w.WriteByte(';')
